@@ -42,6 +42,7 @@ def run(ctx):
     R2 = ctx.rule('C16.R2', 'HMAC shape: long keys hashed, ipad 0x36 -> inner, opad 0x5c -> outer over the whole block; readout = inner, outer(append digest), outer readout, re-init')
     R3 = ctx.rule('C16.R3', 'digest / block sizes and the name registry agree with FIPS 180-4 / RFC 1321')
     R4 = ctx.rule('C16.R4', 'MD5 sine table, shift amounts and initial words; SHA-1 initial words, round constants and padding decision equal the standards')
+    R6 = ctx.rule('C16.R6', 'AES-CBC (OpenSSL back-end): the chaining value lives in the object - every AES_cbc_encrypt call is given the member IV of its direction, set_iv fills both, and each direction uses its own key schedule')
     R5 = ctx.rule('C16.R5', 'hex key decoding: exactly [0-9A-Fa-f] accepted, value = nibble, odd length rejected')
 
     # ---------------- R1
@@ -253,9 +254,41 @@ def run(ctx):
         lp_ = q.enclosing_loops(sh, ifs[0])
         after = [t for t in thr if lp_ and sh.contains(lp_[0], t)]
         ctx.check(not bad and len(after) == 1, R5, 'key::set_hex:accepts-exactly-hex-digits', 'bytes %s are classified wrongly' % [hex(b) for b in bad[:4]], sh.loc(ifs[0]))
+
+    # ---------------- R6 CBC chaining state (compiled back-end)
+    PA = model.Program(build.extract([REPO + '/src/aes.cpp'], include_re='^/repo/(src|private|cppcms)/'))
+    ctx.units.append('src/aes.cpp')
+    sites = [(f, i) for f in PA.fns.values() for i in f.calls() if f.callee(i) == 'AES_cbc_encrypt']
+    if not sites:
+        ctx.notes.append('C16.R6: the compiled cbc back-end does not call AES_cbc_encrypt (gcrypt build?): rule not applicable to this configuration')
+        ctx.check(True, R6, 'openssl-backend:absent', loc=REPO + '/src/aes.cpp')
+    for (f, i) in sites:
+        a = f.args(i)
+        direction = f.const_value(a[5]) if len(a) == 6 else None
+        ivp = f.access_path(a[4]) if len(a) == 6 else None
+        keyrefs = [model.strip_targs(r).rsplit('::', 1)[-1] for r in f.subtree_refs(a[3])] if len(a) == 6 else []
+        want_iv, want_key = ('iv_enc_', 'key_enc_') if direction == 1 else ('iv_dec_', 'key_dec_')
+        ok = ivp is not None and len(ivp) == 2 and ivp[0] == 'this' and ivp[1].rsplit('::', 1)[-1] == want_iv
+        ctx.check(ok, R6, '%s:AES_cbc_encrypt:chains-through-%s' % (f.short, want_iv), 'the IV handed to AES_cbc_encrypt is not the member chaining buffer of this direction: the next call restarts from a stale IV', f.loc(i))
+        ctx.check(want_key in keyrefs, R6, '%s:AES_cbc_encrypt:key-schedule-%s' % (f.short, want_key), 'wrong key schedule for this direction', f.loc(i))
+        ctx.check((f.short == 'encrypt') == (direction == 1), R6, '%s:AES_cbc_encrypt:direction' % f.short, 'direction flag does not match the method', f.loc(i))
+    if sites:
+        rec = sites[0][0].record
+        siv = [f for f in PA.fns.values() if f.record == rec and f.short == 'set_iv']
+        okiv = len(siv) == 1
+        if okiv:
+            tg = set()
+            for i in siv[0].calls():
+                if siv[0].callee(i) in ('memcpy',):
+                    ap_ = siv[0].access_path(siv[0].args(i)[0])
+                    if ap_:
+                        tg.add(ap_[-1].rsplit('::', 1)[-1])
+            okiv = tg == {'iv_enc_', 'iv_dec_'}
+        ctx.check(okiv, R6, 'set_iv:fills-both-directions', 'set_iv does not initialise both chaining buffers', siv[0].where if siv else sites[0][0].where)
     ctx.floor(R1, 14)
     ctx.floor(R2, 6)
     ctx.floor(R3, 20)
     ctx.floor(R4, 7)
     ctx.floor(R5, 4)
+    ctx.floor(R6, 1)
     ctx.trust('standard tables computed in rules/C16.py (sin table, sqrt constants, initial words, FIPS sizes); OpenSSL SHA2 primitives')
